@@ -24,7 +24,7 @@ Section Total.
   Definition dense_tail (n : nat) : bool := forallb M.is_dense (skipn n modes).
 
   Lemma skipn_S_tl : forall A (l : list A) n, skipn (S n) l = tl (skipn n l).
-  Proof. induction l as [|x r IH]; intros [|n]; try reflexivity. simpl. destruct r; reflexivity || apply IH. apply IH. Qed.
+  Proof. induction l as [|x r IH]; intros [|n]; try reflexivity. exact (IH n). Qed.
 
   Lemma dense_tail_S : forall n, dense_tail n = true -> dense_tail (S n) = true.
   Proof.
@@ -96,5 +96,70 @@ Section Total.
     unfold M.pending_compressed. apply existsb_exists. exists t. split; [exact Hin|].
     unfold modes_ok in Hm. rewrite Forall_forall in Hm. specialize (Hm t Hin).
     unfold M.ol_mode. rewrite Hm, Et, Hnth. reflexivity.
+  Qed.
+
+  (** *** simplify_add keeps [follows] *)
+  Definition next_of (m : M.graph) : M.graph :=
+    match m with M.IterationNode _ _ nx => nx | _ => m end.
+
+  Lemma split_same_acc : forall ti o ms T vs0,
+    Forall (fun m => m = M.IterationNode ti o (next_of m)) ms ->
+    M.split_terms ms T [(ti, vs0)] = (T, [(ti, vs0 ++ map (fun m => (o, next_of m)) ms)]).
+  Proof.
+    induction ms as [|m r IH]; intros T vs0 H; [cbn; now rewrite app_nil_r|].
+    inversion H as [|? ? Hm Hr]; subst. rewrite Hm. cbn [M.split_terms M.group_insert next_of map].
+    rewrite String.eqb_refl. rewrite (IH T _ Hr). now rewrite <- app_assoc.
+  Qed.
+
+  Lemma split_same : forall ti o m ms,
+    Forall (fun m => m = M.IterationNode ti o (next_of m)) (m :: ms) ->
+    M.split_terms (m :: ms) [] [] = ([], [(ti, map (fun m => (o, next_of m)) (m :: ms))]).
+  Proof.
+    intros ti o m ms H. inversion H as [|? ? Hm Hr]; subst. rewrite Hm at 1.
+    cbn [M.split_terms M.group_insert]. rewrite (split_same_acc ti o ms [] _ Hr). reflexivity.
+  Qed.
+
+  Lemma follows_not_dense_cons : forall n tgt g,
+    dense_tail n = false -> follows n tgt g ->
+    exists ti tl ts g', tgt = (ti, tl) :: ts /\ g = M.IterationNode ti (Some tl) g' /\ follows (S n) ts g'.
+  Proof.
+    intros n [|[ti tl] ts] g Hd Hf; cbn [follows] in Hf; [congruence|].
+    destruct Hf as [Hf | [g' [-> Hf]]]; [congruence|]. exists ti, tl, ts, g'. auto.
+  Qed.
+
+  Lemma simplify_follows : forall fuel name ms g n tgt,
+    M.simplify_fuel fuel name ms = Some g -> ms <> [] -> Forall (follows n tgt) ms -> follows n tgt g.
+  Proof.
+    induction fuel as [|f IH]; intros name ms g n tgt H Hne HF; [discriminate|].
+    destruct (dense_tail n) eqn:Hd; [now apply follows_dense|].
+    destruct ms as [|m0 ms]; [congruence|].
+    inversion HF as [|? ? Hm0 _]; subst.
+    destruct (follows_not_dense_cons n tgt m0 Hd Hm0) as [ti [tl [ts [g0 [-> [E0 F0]]]]]].
+    assert (Hall : Forall (fun m => m = M.IterationNode ti (Some tl) (next_of m) /\ follows (S n) ts (next_of m)) (m0 :: ms)).
+    { rewrite Forall_forall in *. intros m Hin. specialize (HF m Hin). cbn [follows] in HF.
+      destruct HF as [HF | [g' [-> HF]]]; [congruence|]. cbn [next_of]. auto. }
+    rewrite S.simplify_fuel_S in H.
+    rewrite (split_same ti (Some tl) m0 ms) in H
+      by (rewrite Forall_forall in *; intros m Hin; apply (Hall m Hin)).
+    cbn [fst snd map M.sequence] in H. unfold S.inode_of in H. cbn [map] in H.
+    match type of H with context [M.simplify_fuel f name ?L] => set (L0 := L) in * end.
+    destruct (M.simplify_fuel f name L0) as [n'|] eqn:En; [|discriminate].
+    cbn [S.tnodes_of app S.finish] in H. injection H as <-.
+    cbn [follows]. right. exists n'. split; [reflexivity|].
+    destruct (dense_tail (S n)) eqn:Hd'; [now apply follows_dense|].
+    (* every next is itself an IterationNode, so next_terms_of is the singleton *)
+    assert (HL : L0 = map next_of (m0 :: ms)).
+    { unfold L0. clear -Hall Hd'.
+      change (flat_map (fun v : option M.olayer * M.graph => M.next_terms_of (snd v))
+                (map (fun m => (Some tl, next_of m)) (m0 :: ms)) = map next_of (m0 :: ms)).
+      generalize dependent (m0 :: ms). intros l Hall.
+      induction l as [|m r IHl]; [reflexivity|].
+      inversion Hall as [|? ? [_ Hm] Hr]; subst. cbn [map flat_map snd].
+      destruct (follows_not_dense_cons _ _ _ Hd' Hm) as [? [? [? [g'' [_ [-> _]]]]]].
+      cbn [M.next_terms_of app]. f_equal. apply IHl. exact Hr. }
+    apply (IH name L0 n' (S n) ts En).
+    - rewrite HL. discriminate.
+    - rewrite HL. apply Forall_forall. intros x Hx. apply in_map_iff in Hx as [m [<- Hin]].
+      rewrite Forall_forall in Hall. apply (Hall m Hin).
   Qed.
 End Total.
